@@ -168,12 +168,7 @@ package state
 
 // ======================= C07: transaction integrity and authorisation =======================
 // Pure helpers: functions of the (unchanging) transaction / chain state during one verification.
-//@ func github.com/xuperchain/xupercore/bcs/ledger/xledger/state/utxo/txhash.MakeTransactionID
-//@   noverify
-//@   pure
-//@ func github.com/xuperchain/xupercore/bcs/ledger/xledger/state/utxo/txhash.MakeTxDigestHash
-//@   noverify
-//@   pure
+// (txhash.MakeTransactionID / MakeTxDigestHash: pure, under contract in the txhash package.)
 //@ func github.com/xuperchain/xupercore/bcs/ledger/xledger/state/xmodel.ParseContractUtxoInputs
 //@   noverify
 //@   pure
